@@ -167,6 +167,8 @@ def retype(label, o):
     """Replay files store options as JSON: restore the NumPy integer scalar a label announces."""
     if 'np.int64(' in label and o.get('n_components') is not None:
         o = dict(o, n_components=np.int64(o['n_components']))
+    if 'array_float32' in label and isinstance(o.get('init'), np.ndarray):
+        o = dict(o, init=o['init'].astype(np.float32))
     return o
 
 
